@@ -145,6 +145,13 @@ func (c *c01Case) consolePrefix() string {
 
 // ------------------------------------------------------------------ (b) sink / core faults
 
+// panicHook is a terminal hook that does not return (like the default ones).
+type panicHook struct{}
+
+func (panicHook) OnWrite(ce *zapcore.CheckedEntry, _ []zapcore.Field) {
+	panic("terminal:" + ce.Message)
+}
+
 type sinkOutcome struct {
 	Kind string // ok err short zero syncerr
 }
@@ -273,13 +280,18 @@ func c10Check(t interface {
 	default:
 		top = zapcore.NewTee(zc...)
 	}
-	lg := zap.New(top, zap.ErrorOutput(eout))
+	lg := zap.New(top, zap.ErrorOutput(eout), zap.WithFatalHook(panicHook{}))
 	for e := 0; e < nEntries; e++ {
 		before := len(eout.writes)
 		func() {
 			defer func() {
-				if p := recover(); p != nil {
+				p := recover()
+				terminal := level >= zapcore.PanicLevel // Panic panics by default; Fatal uses a hook that panics
+				if p != nil && !terminal {
 					t.Fatalf("%s: logging call panicked on a sink failure: %v", desc, p)
+				}
+				if p == nil && terminal {
+					t.Fatalf("%s: terminal level %v did not run its action", desc, level)
 				}
 			}()
 			lg.Log(level, fmt.Sprintf("msg%d", e))
@@ -404,8 +416,8 @@ func propC10Sinks(t *rapid.T) {
 			}
 		}
 	}
-	level := zapcore.Level(rapid.IntRange(-1, 2).Draw(t, "level"))
-	sig := fmt.Sprintf("sinks|c%d e%d f%d|", nCores, nEntries, nf)
+	level := zapcore.Level(rapid.SampledFrom([]int{-1, 0, 1, 2, 2, 3, 4, 5}).Draw(t, "level"))
+	sig := fmt.Sprintf("sinks|c%d e%d f%d L%d|", nCores, nEntries, nf, level)
 	for _, ss := range cores {
 		for _, s := range ss {
 			for _, o := range s.script {
